@@ -35,6 +35,7 @@ fn main() {
         "c18" => h::c18::run(rest, &mut out),
         "c19" => h::c19::run(rest, &mut out),
         "c20" => h::c20::run(rest, &mut out),
+        "dec96" => h::dec96::run(rest, &mut out),
         other => {
             eprintln!("unknown command {}", other);
             2
